@@ -257,7 +257,7 @@ fn one(rep: &mut Report, bed: &TestBed, factory: &Arc<Factory>, b: &Value, idx: 
     let mut cfg = bed.config();
     cfg.stale = policy_of(b["config"]["stale"].as_str().unwrap());
     cfg.unsafe_vrps = policy_of(b["config"]["unsafe"].as_str().unwrap());
-    cfg.max_ca_depth = b["config"]["maxdepth"].as_u64().unwrap() as usize;
+    cfg.max_ca_depth = configured_depth(b["config"]["maxdepth"].as_u64().unwrap() as usize, idx);
     cfg.enable_aspa = true;
     cfg.enable_bgpsec = true;
     cfg.validation_threads = [1, 2, 4][idx % 3];
@@ -447,4 +447,30 @@ pub fn subtree(b: &Value, ca: u64) -> BTreeSet<u64> {
         if !grew { break }
     }
     res
+}
+
+
+/// The maximum depth as Routinator understands it when it is configured: every other world through the command line
+/// option, the others through a configuration file (the option parser's result is what the engine gets).
+fn configured_depth(depth: usize, idx: usize) -> usize {
+    use std::ffi::OsString;
+    let dir = std::env::temp_dir();
+    let via_file = idx % 2 == 1;
+    let mut argv: Vec<OsString> = vec!["routinator".into()];
+    let file = dir.join(format!("vh-depth-{}-{}.conf", std::process::id(), idx));
+    if via_file {
+        if std::fs::write(&file, format!("max-ca-depth = {depth}\n")).is_err() { return depth }
+        argv.push("-c".into()); argv.push(file.clone().into_os_string());
+    } else {
+        argv.push("--max-ca-depth".into()); argv.push(depth.to_string().into());
+    }
+    argv.push("vrps".into());
+    let res = super::configrt::build(&argv, &dir);
+    let _ = std::fs::remove_file(&file);
+    match res {
+        Ok(c) => c.max_ca_depth,
+        // the file route needs more than this file gives on some builds: fall back to the command line
+        Err(_) if via_file => configured_depth(depth, idx + 1),
+        Err(e) => panic!("max-ca-depth {depth} not accepted by the option parser: {e}"),
+    }
 }
